@@ -2,6 +2,7 @@
   C17 — rejected lines and unfragmented sentences leave no trace in the parser.
 -/
 import AisVerif.Lemmas.Machine
+import AisVerif.Lemmas.Flags
 
 namespace AisVerif.C17
 open AisVerif Spec
@@ -149,6 +150,44 @@ example : Tagged .std true PState.init [([0x78], true), ([], true)] := by
   have h1 : parseNmeaSentence .std [0x78] = err (.nomError .tag) := rfl
   have h2 : parseNmeaSentence .std [] = err (.nomError .tag) := rfl
   exact ⟨NoTrace.form (by intro r h; rw [h1] at h; cases h), NoTrace.form (by intro r h; rw [h2] at h; cases h), trivial⟩
+
+/-! ### Every line with its own decode flag -/
+
+theorem runD_append (cfg : Cfg) (st : PState) (a b : List (Bytes × Bool)) :
+    runD cfg st (a ++ b) =
+      ((runD cfg st a).1 ++ (runD cfg (runD cfg st a).2 b).1, (runD cfg (runD cfg st a).2 b).2) := by
+  induction a generalizing st with
+  | nil => simp [runD]
+  | cons x t ih =>
+    simp only [List.cons_append, runD_cons]
+    rw [ih]
+
+/-- **The decode flag of a line leaves no trace either**: the parser state after any history is the same under
+    every assignment of flags to its lines. -/
+theorem state_independent_of_flags (cfg : Cfg) (st : PState) (h h' : List (Bytes × Bool))
+    (hl : h.map (·.1) = h'.map (·.1)) : (runD cfg st h).2 = (runD cfg st h').2 := by
+  rw [runD_state cfg false st h, runD_state cfg false st h', hl]
+
+/-- **C17 with per-line flags.** In a history whose lines each carry their own decode flag, removing a no-trace
+    line - whatever its flag was - changes nothing in the results produced for all the other lines, nor in the
+    final state. -/
+theorem remove_noTrace_flags (cfg : Cfg) (st : PState) (h1 h2 : List (Bytes × Bool)) (l : Bytes) (d : Bool)
+    (hnt : NoTrace cfg (runD cfg st h1).2 l) :
+    (runD cfg st (h1 ++ (l, d) :: h2)).1.eraseIdx h1.length = (runD cfg st (h1 ++ h2)).1 ∧
+    (runD cfg st (h1 ++ (l, d) :: h2)).2 = (runD cfg st (h1 ++ h2)).2 := by
+  have hs := noTrace_step cfg (runD cfg st h1).2 l d hnt
+  rw [runD_append, runD_append]
+  simp only [runD_cons]
+  rw [hs]
+  refine ⟨?_, rfl⟩
+  have hlen := runD_length cfg st h1
+  rw [← hlen]
+  simp [List.eraseIdx_append_of_length_le]
+
+/-- Non-vacuity: a rejected line sent with decoding on between lines sent with decoding off. -/
+example : NoTrace .std (runD .std PState.init [([0x21], false)]).2 [0x78] := by
+  have h1 : parseNmeaSentence .std [0x78] = err (.nomError .tag) := rfl
+  exact NoTrace.form (by intro r h; rw [h1] at h; cases h)
 
 /-- Distinct parser instances: in the model a parser's results are a function of its own state and
     its own lines only (`run` takes nothing else) — there is no shared state to model.  That the
